@@ -364,6 +364,32 @@ CHECKS["C07"] = dict(
               "set, replay on the compiled domain manager",
     design="2/C07")
 
+CHECKS["C02"] = dict(
+    level="translation_validation",
+    text="For every shipped Equation class of the selected modules (all "
+         "modules in the thorough tier) the real code generator emits the "
+         "Cython module for {dest a; sources a, b}; it is lowered to Python. "
+         "T1: every hook method (initialize, initialize_pair, loop_all, "
+         "loop, post_loop, converged) of the generated class and of the "
+         "Python class run on the same symbolic arguments and z3 decides "
+         "that all written array cells, in-place vectors and return values "
+         "agree. T2: the lowered compute() runs for one destination particle "
+         "and one neighbour per source with a recorder in place of the "
+         "equation; z3 decides that every d_*/s_* argument is the documented "
+         "array and every pre-computed symbol (HIJ, XIJ, VIJ, R2IJ, RIJ, "
+         "RHOIJ, RHOIJ1, EPS, WIJ, WI, WJ, WDP, DWIJ, DWI, DWJ, GH*, WDASH*) "
+         "equals its documented formula. Disagreements are confirmed by a "
+         "differential run: compiled SPHEvaluator vs the Python methods "
+         "driven in the documented order.",
+    note="lowering trusted; exact reals with shared symbolic sqrt/exp/pow; "
+         "abstract radial kernel; C int typing not reproduced; only shipped "
+         "classes (no random equation generator); the order of hook calls is "
+         "C03's subject",
+    technique="translation validation: symbolic execution of the lowered "
+              "generated module vs. the python source, z3 equality per "
+              "path, differential replay on the compiled module",
+    design="2/C02")
+
 NOT_APPLICABLE = {
     "C05": "whole-application runs of compiled OpenMP code compared across "
            "configurations up to summation order: no unit a solver can "
